@@ -1,5 +1,6 @@
 import Driver.Util
 import Sqfs.Spec.Path
+import Sqfs.Model.C18InPlace
 namespace Driver.C18
 open Sqfs.Path
 
@@ -15,6 +16,24 @@ def step (line : String) : String :=
   | ["spec", h] => match fromHex h with
       | some s => showOpt (specCanon s)
       | none => "bad-op"
+  | ["canonmem", h, t] => match fromHex h, fromHex t with
+      | some s, some tl =>
+        if s.contains 0 then "bad-op" else
+        -- the in-place model on the array `s ++ NUL ++ tl`; prints the whole array afterwards
+        match Sqfs.PathIP.canonicalizeIP (s.length + 3) (s ++ 0 :: tl) with
+        | none => "out-of-bounds"
+        | some .fail => "fail"
+        | some (.ok m) => "ok " ++ toHexTok m
+      | _, _ => "bad-op"
+  | ["norm", h, t] => match fromHex h, fromHex t with
+      | some s, some tl =>
+        if s.contains 0 then "bad-op" else
+        -- `normalize_slashes` alone, in place, on the array `s ++ NUL ++ tl`; the functional `normalizeSlashes s`
+        -- must be what the array then holds (checked here, so a difference shows as a different line)
+        match Sqfs.PathIP.normalizeIP (s.length + 3) (s ++ 0 :: tl) with
+        | none => "out-of-bounds"
+        | some m => if Sqfs.PathIP.cstr m == some (normalizeSlashes s) then "ok " ++ toHexTok m else "model-inconsistent"
+      | _, _ => "bad-op"
   | ["sane", h] => match fromHex h with
       | some s => if isFilenameSane s then "1" else "0"
       | none => "bad-op"
